@@ -73,7 +73,7 @@ class Gen(object):
     def __init__(self, w, rng):
         self.w = w; self.rng = rng
         self.next_id = 0
-        self.style_names = set([u'Fixed', u'Nope'])
+        self.style_names = set([u'Nope'])
         self.fname = {}
 
     def fresh(self):
@@ -330,7 +330,7 @@ class History(object):
 def replay_ops(attached, ops):
     """re-run a recorded history with the oracle only"""
     h = History(None, attached, None)
-    names = set([u'Fixed', u'Nope'])
+    names = set([u'Nope'])
     for op in ops:
         if op[0] == 'ctor':
             for n, v in op[3]:
